@@ -406,6 +406,12 @@ def tie(ctx):
             # prefer the edge-variant allele when there is one
             if "88" in ga.alleles and r.random() < 0.7:
                 copies[0] = ("88", list(ga.alleles["88"].minors)[0])
+            # every other sample: homozygous for an allele with an insertion (its left-aligned spelling depends on the strand
+            # when it sits in a repeat; the read-phase record must name it at the catalogue position in both builds)
+            if k % 2 == 0:
+                with_ins = [(a, mi) for a in majors for mi in ga.alleles[a].minors if any(m[1].startswith("ins") for m in sim.copy_variants(ga, a, mi))]
+                if with_ins:
+                    copies = [r.choice(with_ins)] * 2
             outs = []
             prof_a = sim.simulate_reads(genes[0], [("1", "1.001"), ("1", "1.001")], depth=12)
             smp_a = sim.simulate_reads(genes[0], copies, depth=12)
